@@ -15,11 +15,12 @@ EXTENDS Integers, Sequences, FiniteSets, TLC, Json, IOUtils
 
 W == INSTANCE Wire WITH Base <- 256, SidCells <- 4, LenCells <- 2
 Rec == ndJsonDeserialize(IOEnv.TRACE)
-Kinds == {"call", "ret", "wf", "wbad", "at", "drift", "end"}
+Kinds == {"call", "ret", "wf", "wbad", "at", "drift", "hbin", "end"}
 
 InitSt(e) == [q |-> <<>>,          \* task -> sequence of chunks <<cmd, sid, len>> not yet on the wire
               syn |-> {},          \* stream ids whose SYN has been seen on the wire
               nopen |-> 0,         \* open_stream calls so far: stream ids are allocated in call order, from 1
+              hbin |-> 0,          \* keep-alive requests received from the peer and not answered yet
               n |-> 0]             \* non-waste frames seen
 
 Ok(s)      == [ok |-> TRUE, st |-> s, why |-> "", dev |-> "", site |-> ""]
@@ -42,6 +43,9 @@ Apply(s, e) ==
             IN  IF Len(h) # 7 \/ W!HLen(h) # e.len THEN No(s, "frame header disagrees with its payload")
                 ELSE IF h[1] = 0 THEN Ok(s)                                        \* padding
                 ELSE IF s.n = 0 /\ h[1] # 4 THEN No(s, "the first frame of the session is not the settings frame")
+                \* frames the session writes on its own account: keep-alive requests of its monitor, answers to the peer's
+                ELSE IF h[1] = 8 /\ e.len = 0 THEN Ok([s EXCEPT !.n = @ + 1])
+                ELSE IF h[1] = 9 /\ e.len = 0 /\ s.hbin > 0 THEN Ok([s EXCEPT !.n = @ + 1, !.hbin = @ - 1])
                 ELSE IF h[1] = 2 /\ W!HSid(h) \notin s.syn THEN No(s, "data frame of a stream before that stream's opening frame")
                 ELSE IF cands = {} THEN No(s, "frame on the wire is not the next unsent frame of any task (reordered, duplicated or foreign)")
                 ELSE IF ~e.eq THEN No(s, "frame payload differs from what was submitted")
@@ -49,6 +53,7 @@ Apply(s, e) ==
                      Ok([s EXCEPT !.q = Put(s.q, t, Tail(s.q[t])), !.n = @ + 1,
                                   !.syn = IF h[1] = 1 THEN @ \cup {W!HSid(h)} ELSE @])
       [] e.ev = "wbad" -> No(s, "the bytes on the wire do not parse as complete frames (interleaved writes)")
+      [] e.ev = "hbin" -> Ok([s EXCEPT !.hbin = @ + e.n])
       [] e.ev = "at" -> Ok(s)
       [] e.ev = "drift" -> Ok(s)
       [] e.ev = "end" ->
